@@ -89,7 +89,7 @@ def _concretes(kind: str, tag: str, n: int) -> List[Any]:
             return [lo, hi, 0, 1] + ([-1] if lo < 0 else [hi - 1])
         if kind == "Byte":
             return [0, 255, 1, 128, 65]
-        return [valdrv._scalar_values(None, kind, t, n)[0][1]() for t in ("F1_5", "F0_1", "FMAX", "NFMAX", "NEGZERO", "SUBN", "NAN", "BIGINT")]
+        return [valdrv._scalar_values(None, kind, t, n)[0][1]() for t in ("F1_5", "F0_1", "FULLPREC", "FMAX", "NFMAX", "NEGZERO", "SUBN", "NAN", "BIGINT")]
     if kind == "Byte" and n:          # inside a list the element is given as an integer
         return [v[0] if isinstance(v, (bytes, bytearray)) else v for v in (f() for _, f in valdrv._scalar_values(None, kind, tag, 0))]
     return [f() for _, f in valdrv._scalar_values(None, kind, tag, n)]
